@@ -206,3 +206,70 @@ func H_C08_same_named_types() {
 	vAssert((e1 == nil) == (e2 == nil) && (e1 != nil || len(r1.([]interface{})) == len(r2.([]interface{}))), "filter: same selection")
 	vCover("reached")
 }
+
+// Embedded structs: an embedded field is a field like any other — hidden when
+// tagged "-" or when its type name is unexported — and promotion through it
+// must not make its content observable.
+type EmbVisC08 struct {
+	Token string
+	N     int8
+}
+type EmbHidC08 struct {
+	Secret string
+	K      int8
+}
+type embUnexpC08 struct{ Z string }
+type EmbPtrC08 struct{ P string }
+
+type hC08e struct {
+	EmbVisC08
+	EmbHidC08   `bexpr:"-" alt:"-"`
+	embUnexpC08
+	*EmbPtrC08 `bexpr:"-" alt:"-"`
+	A          int8
+}
+
+var exprsC08e = []string{
+	`Token == "x"`, `Secret == "x"`, `K == 1`, `Z == "x"`, `P == "x"`, `N == 1`, `A == 1`,
+	`EmbVisC08.Token == "x"`, `EmbHidC08.Secret == "x"`, `EmbHidC08.K == 1`, `embUnexpC08.Z == "x"`, `EmbPtrC08.P == "x"`,
+	`"/Secret" == "x"`, `"/EmbHidC08/Secret" != "x"`, `EmbHidC08 is empty`, `EmbHidC08 is not empty`, `EmbPtrC08 is empty`, `Secret matches "x"`, `"x" in Secret`,
+	`any L as e { e.Secret == "x" }`, `all L as e { e.K != 1 }`, `any L as e { e.Token == "x" }`, `L.0.Secret == "x"`, `L.0.EmbHidC08.Secret == "x"`, `M.k.Secret == "x"`, `all M as _, v { v.P != "x" }`,
+}
+
+func mkC08e(tok string, n, a int8) hC08e {
+	return hC08e{EmbVisC08: EmbVisC08{Token: tok, N: n}, EmbHidC08: EmbHidC08{Secret: vStringN(1), K: vInt8()}, embUnexpC08: embUnexpC08{Z: vStringN(1)}, EmbPtrC08: &EmbPtrC08{P: vStringN(1)}, A: a}
+}
+
+func H_C08_embedded() {
+	tok, n, a := vString(1), vInt8(), vInt8()
+	expr := exprsC08e[vChoose(len(exprsC08e))]
+	var opts []Option
+	tag := "bexpr"
+	switch vChoose(3) {
+	case 1:
+		opts, tag = []Option{WithTagName("alt")}, "alt"
+	case 2:
+		opts, tag = []Option{WithUnknownValue("x")}, "bexpr+unknown"
+	}
+	type outer struct {
+		hC08e
+		L []hC08e
+		M map[string]*hC08e
+	}
+	m1, m2 := mkC08e(tok, n, a), mkC08e(tok, n, a)
+	d1 := outer{hC08e: mkC08e(tok, n, a), L: []hC08e{mkC08e(tok, n, a)}, M: map[string]*hC08e{"k": &m1}}
+	d2 := outer{hC08e: mkC08e(tok, n, a), L: []hC08e{mkC08e(tok, n, a)}, M: map[string]*hC08e{"k": &m2}}
+	ev, err := CreateEvaluator(expr, opts...)
+	vAssume(err == nil)
+	var o1, o2 int
+	if vBool() {
+		o1, _, _ = evalO(ev, d1.hC08e)
+		o2, _, _ = evalO(ev, &d2.hC08e)
+	} else {
+		o1, _, _ = evalO(ev, d1)
+		o2, _, _ = evalO(ev, d2)
+	}
+	vAssume(o1 != oPanic && o2 != oPanic)
+	vAssert(o1 == o2, "content of hidden / unexported embedded structs is unobservable, also through promotion: "+expr+" ["+tag+"]")
+	vCover("reached")
+}
